@@ -229,6 +229,31 @@ def job_dwarf(payload):
     return out
 
 
+def job_shallow(payload):
+    """Every word of the vocabulary, and the back-tick capture forms, on stacks that are too shallow, exactly deep enough
+    and one deeper: the boundary where 'not enough values' has to be an error and never an out-of-bounds access."""
+    words, = payload
+    d = common.get_driver()
+    out = {"shallow_runs": 0, "shallow_errors": 0, "bad": []}
+    stacks = ["", "1", '"a"', "[ 1 ]", "1 2", '"a" 2', "1 2 3", '[ ] "a" 3', "1 2 3 4", "1 2 3 4 5"]
+    for w in words:
+        for st in stacks:
+            t = (st + " " + w).strip()
+            try:
+                r = d.run(t, fuel=200000, max=50)
+                out["shallow_runs"] += 1
+                if r["st"] == "error":
+                    out["shallow_errors"] += 1
+                if r["evbad"]:
+                    out["bad"].append(("api-contract", dict(text=t, ev=r["ev"])))
+            except common.DriverCrash as ex:
+                out["bad"].append(("crash:" + getattr(ex, "key", ex.kind), dict(text=t, report=ex.report[-3000:])))
+            except common.DriverTimeout as ex:
+                out["bad"].append(("hang", dict(text=t)))
+    out["bad"] = out["bad"][:40]
+    return out
+
+
 def valgrind_subset(chk, nprogs):
     """memcheck on the un-sanitised hook build: uninitialised-value use and invalid accesses ASan cannot see."""
     from vf import build
@@ -336,6 +361,18 @@ def run(chk):
     if not quick:
         files = sorted(set(files + [p for p in glob.glob(os.path.join(tdir, "*")) if os.path.isfile(p) and open(p, "rb").read(4) == b"\x7fELF"]))
     zcheck.consume(chk, pool.map(job_dwarf, [(f, i) for i, f in enumerate(files)]), tot, ctx, samples, "C13 dwarf")
+    # boundary stack depths for the whole vocabulary (constants excluded: they only push) and the back-tick forms
+    dv = common.Driver()
+    voc = dv.req("voc")["words"]
+    dv.kill()
+    wl = [w for w in voc if not (w[:3] in ("DW_", "T_C", "T_S", "T_D", "T_A", "T_L", "T_E", "STT", "STB", "STV", "SHT", "SHF", "EM_", "ET_", "EF_") or w.startswith("T_"))]
+    if quick:
+        rngw = chk.rng("shallow")
+        core = [w for w in wl if not (w[0] in "?!@" and ("AT_" in w or "TAG_" in w or "OP_" in w or "FORM_" in w or "LANG_" in w or "ATE_" in w or "DS_" in w or "STT_" in w or "STB_" in w))]
+        wl = core + rngw.sample([w for w in wl if w not in core], 150)
+    wl += ["`" * k + "[" + b + "]" for k in range(1, 7) for b in ("", "1", "dup", "1, 2", "drop")]
+    wl += ["(|A B C| A)", "(|A B C D E| A)", "let A B C := ;", "[|A B| A]", "?(|A B C| A)", "{} apply", "rot rot rot", "over over", "swap drop drop"]
+    zcheck.consume(chk, pool.map(job_shallow, [(wl[i:i + 25],) for i in range(0, len(wl), 25)]), tot, ctx, samples, "C13 shallow")
     hs = pool.hook_stats()
     pool.finish()
     vg = 0
@@ -354,6 +391,7 @@ def run(chk):
         "mutated_queries": tot.get("mutants", 0), "rejected_queries": tot.get("rejected", 0), "accepted_queries_leak_checked": tot.get("accepted", 0),
         "dwarf_runs": tot.get("dw_runs", 0), "dwarf_files": [os.path.basename(f) for f in files],
         "leak_checks": tot.get("leakchecks", 0),
+        "word_x_boundary_depth_runs": tot.get("shallow_runs", 0), "of_which_raised_cleanly": tot.get("shallow_errors", 0),
         "H1": {k: hs.get(k) for k in ("scon_new", "scon_del", "scon_con", "scon_des", "scon_get", "fuel_exhausted")},
         "state_types_seen": sorted((hs.get("state_types") or {}).keys()),
         "valgrind_memcheck_jobs": vg, "libfuzzer": fz,
